@@ -78,6 +78,8 @@ const REF_ATTRS: [DwAt; 8] = [
 struct Built {
     sections: Sections<RawRefVec>,
     endian: RunTimeEndian,
+    /// `.debug_addr` (plain address array, base 0) for hand-encoded DW_LLE_startx_* entries
+    addr: Vec<u8>,
 }
 
 fn encoding_of(case: &Value) -> Encoding {
@@ -192,6 +194,8 @@ fn build_input(case: &Value) -> Result<Built, String> {
     let mut nattr: HashMap<i64, usize> = HashMap::new();
     let mut exprs: BTreeMap<i64, Expression> = BTreeMap::new();
     let mut lists: BTreeMap<i64, Vec<Location>> = BTreeMap::new();
+    // holder -> (ordinal of the expression-carrying entry in its list, wanted DW_LLE_startx_* kind)
+    let mut startx: BTreeMap<i64, Vec<(usize, String)>> = BTreeMap::new();
     for r in refs {
         let from = r["from"].as_i64().ok_or("ref from")?;
         let to = r["to"].as_i64().ok_or("ref to")?;
@@ -218,13 +222,43 @@ fn build_input(case: &Value) -> Result<Built, String> {
         } else if let Some(k) = kind.strip_prefix("l_") {
             let mut data = Expression::new();
             add_ref_op(&mut data, k, &target, same_unit)?;
+            // which kind of location list entry carries the expression
+            let loc = r["loc"].as_str().unwrap_or("start_end");
             let v = lists.entry(from).or_default();
-            let n = v.len() as u64;
-            v.push(Location::StartEnd {
-                begin: Address::Constant(0x1000 + 0x100 * n),
-                end: Address::Constant(0x1080 + 0x100 * n),
-                data,
-            });
+            let n = v.iter().filter(|l| !matches!(l, Location::BaseAddress { .. })).count() as u64;
+            let begin = 0x1000 + 0x100 * n;
+            let end = begin + 0x80;
+            let se = |data| Location::StartEnd { begin: Address::Constant(begin), end: Address::Constant(end), data };
+            if enc.version <= 4 {
+                // .debug_loc has one entry kind (address or offset pair); the writer reaches it three ways
+                let based = matches!(v.first(), Some(Location::BaseAddress { .. }));
+                match loc {
+                    // once a list has a base address selection entry, every later entry is an offset pair
+                    _ if based => v.push(Location::OffsetPair { begin: begin - 0x100, end: end - 0x100, data }),
+                    "offset_pair" if n == 0 => {
+                        v.push(Location::BaseAddress { address: Address::Constant(0x100) });
+                        v.push(Location::OffsetPair { begin: begin - 0x100, end: end - 0x100, data });
+                    }
+                    "start_length" | "startx_length" => v.push(Location::StartLength {
+                        begin: Address::Constant(begin), length: 0x80, data }),
+                    _ => v.push(se(data)),
+                }
+            } else {
+                match loc {
+                    "offset_pair" => {
+                        v.push(Location::BaseAddress { address: Address::Constant(0x100) });
+                        v.push(Location::OffsetPair { begin: begin - 0x100, end: end - 0x100, data });
+                    }
+                    "start_length" => v.push(Location::StartLength { begin: Address::Constant(begin), length: 0x80, data }),
+                    "default_location" => v.push(Location::DefaultLocation { data }),
+                    // startx_endx / startx_length are re-encoded by hand after writing
+                    "startx_endx" | "startx_length" => {
+                        startx.entry(from).or_default().push((n as usize, loc.to_string()));
+                        v.push(se(data))
+                    }
+                    _ => v.push(se(data)),
+                }
+            }
         } else {
             let k = *nattr.get(&from).unwrap_or(&0);
             nattr.insert(from, k + 1);
@@ -273,19 +307,167 @@ fn build_input(case: &Value) -> Result<Built, String> {
     dwarf
         .write(&mut sections)
         .map_err(|e| format!("input write: {:?}", e))?;
-    let mut built = Built { sections, endian };
+    let mut built = Built { sections, endian, addr: Vec::new() };
     patch_invalid_unit_refs(case, &mut built)?;
+    if !startx.is_empty() {
+        let names: BTreeMap<String, Vec<(usize, String)>> = startx
+            .into_iter()
+            .map(|(from, v)| (if from < 0 { format!("root{}", -from) } else { format!("e{}", from) }, v))
+            .collect();
+        reencode_loclists(&mut built, enc, &names)?;
+    }
     Ok(built)
 }
 
 fn load<'a>(s: &'a Sections<RawRefVec>, endian: RunTimeEndian) -> read::Dwarf<Slice<'a>> {
+    load_with(s, endian, &[])
+}
+
+fn load_with<'a>(s: &'a Sections<RawRefVec>, endian: RunTimeEndian, addr: &'a [u8]) -> read::Dwarf<Slice<'a>> {
     read::Dwarf::load(|id: SectionId| -> Result<Slice<'a>, ()> {
+        if id == SectionId::DebugAddr {
+            return Ok(EndianSlice::new(addr, endian));
+        }
         Ok(EndianSlice::new(
             s.get(id).map(|w| w.0.slice()).unwrap_or(&[]),
             endian,
         ))
     })
     .unwrap()
+}
+
+/// The writer cannot emit DW_LLE_startx_endx / DW_LLE_startx_length.  The lists were
+/// written with DW_LLE_start_end in their place; here `.debug_loclists` is encoded
+/// again by hand from what gimli's raw iterator reads (expression bytes are copied
+/// verbatim, so the references in them stay resolved), the chosen entries become
+/// startx entries over a hand-built `.debug_addr`, and the DW_AT_frame_base offsets
+/// in `.debug_info` are patched to the new list positions.
+fn reencode_loclists(
+    built: &mut Built,
+    enc: Encoding,
+    startx: &BTreeMap<String, Vec<(usize, String)>>,
+) -> Result<(), String> {
+    let es = |e: gimli::Error| format!("{:?}", e);
+    let endian = built.endian;
+    let mut out = RawRefVec(EndianVec::new(endian));
+    let mut addr = RawRefVec(EndianVec::new(endian));
+    let ws = |e: write::Error| format!("{:?}", e);
+    // one table header for all lists (offset_entry_count 0: lists are addressed by section offset)
+    let length_offset = out.write_initial_length(enc.format).map_err(ws)?;
+    let length_base = out.len();
+    out.write_u16(5).map_err(ws)?;
+    out.write_u8(enc.address_size).map_err(ws)?;
+    out.write_u8(0).map_err(ws)?;
+    out.write_u32(0).map_err(ws)?;
+    let mut patches: Vec<(usize, usize)> = Vec::new(); // (position in .debug_info, new list offset)
+    {
+        let dwarf = load(&built.sections, endian);
+        let mut units = dwarf.units();
+        while let Some(h) = units.next().map_err(es)? {
+            let unit = dwarf.unit(h).map_err(es)?;
+            let uref = unit.unit_ref(&dwarf);
+            let base = unit.header.offset().0;
+            let mut raw = unit.entries_raw(None).map_err(es)?;
+            while !raw.is_empty() {
+                let Some(abbrev) = raw.read_abbreviation().map_err(es)? else { continue };
+                let mut name = String::new();
+                let mut fb: Option<(usize, gimli::LocationListsOffset)> = None;
+                for spec in abbrev.attributes() {
+                    let pos = raw.next_offset().0;
+                    let attr = raw.read_attribute(*spec).map_err(es)?;
+                    if attr.name() == constants::DW_AT_name {
+                        if let Ok(s) = uref.attr_string(attr.value()) {
+                            name = s.to_string_lossy().into_owned();
+                        }
+                    }
+                    if attr.name() == constants::DW_AT_frame_base {
+                        if let read::AttributeValue::LocationListsRef(o) = attr.value() {
+                            fb = Some((base + pos, o));
+                        }
+                    }
+                }
+                let Some((pos, off)) = fb else { continue };
+                let want = startx.get(&name);
+                patches.push((pos, out.len()));
+                let mut it = uref.raw_locations(off).map_err(es)?;
+                let mut k = 0usize; // ordinal among the expression-carrying entries
+                let expr = |w: &mut RawRefVec, d: &read::Expression<Slice<'_>>| -> Result<(), String> {
+                    w.write_uleb128(d.0.len() as u64).map_err(ws)?;
+                    w.write(d.0.slice()).map_err(ws)
+                };
+                while let Some(e) = it.next().map_err(es)? {
+                    use read::RawLocListEntry as L;
+                    match e {
+                        L::BaseAddress { addr: a } => {
+                            out.write_u8(constants::DW_LLE_base_address.0).map_err(ws)?;
+                            out.write_udata(a, enc.address_size).map_err(ws)?;
+                        }
+                        L::OffsetPair { begin, end, data } => {
+                            out.write_u8(constants::DW_LLE_offset_pair.0).map_err(ws)?;
+                            out.write_uleb128(begin).map_err(ws)?;
+                            out.write_uleb128(end).map_err(ws)?;
+                            expr(&mut out, &data)?;
+                            k += 1;
+                        }
+                        L::StartLength { begin, length, data } => {
+                            out.write_u8(constants::DW_LLE_start_length.0).map_err(ws)?;
+                            out.write_udata(begin, enc.address_size).map_err(ws)?;
+                            out.write_uleb128(length).map_err(ws)?;
+                            expr(&mut out, &data)?;
+                            k += 1;
+                        }
+                        L::DefaultLocation { data } => {
+                            out.write_u8(constants::DW_LLE_default_location.0).map_err(ws)?;
+                            expr(&mut out, &data)?;
+                            k += 1;
+                        }
+                        L::StartEnd { begin, end, data } => {
+                            let kind = want.and_then(|v| v.iter().find(|(i, _)| *i == k)).map(|(_, s)| s.as_str());
+                            match kind {
+                                Some("startx_endx") => {
+                                    let i = (addr.len() / enc.address_size as usize) as u64;
+                                    addr.write_udata(begin, enc.address_size).map_err(ws)?;
+                                    addr.write_udata(end, enc.address_size).map_err(ws)?;
+                                    out.write_u8(constants::DW_LLE_startx_endx.0).map_err(ws)?;
+                                    out.write_uleb128(i).map_err(ws)?;
+                                    out.write_uleb128(i + 1).map_err(ws)?;
+                                }
+                                Some("startx_length") => {
+                                    let i = (addr.len() / enc.address_size as usize) as u64;
+                                    addr.write_udata(begin, enc.address_size).map_err(ws)?;
+                                    out.write_u8(constants::DW_LLE_startx_length.0).map_err(ws)?;
+                                    out.write_uleb128(i).map_err(ws)?;
+                                    out.write_uleb128(end - begin).map_err(ws)?;
+                                }
+                                _ => {
+                                    out.write_u8(constants::DW_LLE_start_end.0).map_err(ws)?;
+                                    out.write_udata(begin, enc.address_size).map_err(ws)?;
+                                    out.write_udata(end, enc.address_size).map_err(ws)?;
+                                }
+                            }
+                            expr(&mut out, &data)?;
+                            k += 1;
+                        }
+                        other => return Err(format!("unexpected entry in a written list: {:?}", other)),
+                    }
+                }
+                out.write_u8(constants::DW_LLE_end_of_list.0).map_err(ws)?;
+            }
+        }
+    }
+    let length = (out.len() - length_base) as u64;
+    out.write_initial_length_at(length_offset, length, enc.format).map_err(ws)?;
+    for (pos, off) in patches {
+        built
+            .sections
+            .debug_info
+            .0
+            .write_udata_at(pos, off as u64, enc.format.word_size())
+            .map_err(ws)?;
+    }
+    built.sections.debug_loclists.0 = out;
+    built.addr = addr.0.slice().to_vec();
+    Ok(())
 }
 
 /// For `attr_unit` references with target 0 the writer was given a placeholder;
@@ -314,7 +496,7 @@ fn patch_invalid_unit_refs(case: &Value, built: &mut Built) -> Result<(), String
     }
     let mut patches: Vec<(usize, u8)> = Vec::new();
     {
-        let dwarf = load(&built.sections, built.endian);
+        let dwarf = load_with(&built.sections, built.endian, &built.addr);
         let mut units = dwarf.units();
         while let Some(h) = units.next().map_err(|e| format!("{:?}", e))? {
             let unit = dwarf.unit(h).map_err(|e| format!("{:?}", e))?;
@@ -446,15 +628,14 @@ fn attr_repr<'a>(unit: read::UnitRef<'_, Slice<'a>>, attr: &read::Attribute<Slic
         A::DebugInfoRef(o) => resolve(names, o.0),
         A::Exprloc(e) => json!({"expr": ops_repr(unit, e, names)}),
         A::LocationListsRef(off) => {
+            // by meaning: address ranges resolved through base addresses / .debug_addr,
+            // so that the entry kind the lists are (re)written with does not matter
             let mut out = Vec::new();
-            match unit.raw_locations(off) {
+            match unit.locations(off) {
                 Ok(mut it) => loop {
                     match it.next() {
-                        Ok(Some(read::RawLocListEntry::AddressOrOffsetPair { begin, end, data }))
-                        | Ok(Some(read::RawLocListEntry::StartEnd { begin, end, data })) => {
-                            out.push(json!({"b":bv(begin,8),"e":bv(end,8),"ops":ops_repr(unit, data, names)}))
-                        }
-                        Ok(Some(other)) => out.push(json!(format!("{:?}", other))),
+                        Ok(Some(l)) => out.push(json!({"b":bv(l.range.begin,8),"e":bv(l.range.end,8),
+                                                       "ops":ops_repr(unit, l.data, names)})),
                         Ok(None) => break,
                         Err(e) => {
                             out.push(json!({"locerr":format!("{:?}", e)}));
@@ -804,17 +985,49 @@ fn convert_split_and_read(
     }
 }
 
+/// Which raw location list entry kinds the input really contains, per holder
+/// (so that the driver can confirm the kinds a case asked for were produced).
+fn raw_loc_kinds(dwarf: &read::Dwarf<Slice<'_>>) -> Value {
+    let mut out = Map::new();
+    let mut units = dwarf.units();
+    while let Ok(Some(h)) = units.next() {
+        let Ok(unit) = dwarf.unit(h) else { continue };
+        let uref = unit.unit_ref(dwarf);
+        let Ok(mut raw) = unit.entries_raw(None) else { continue };
+        let mut e = read::DebuggingInformationEntry::null();
+        while !raw.is_empty() {
+            match raw.read_entry(&mut e) {
+                Ok(true) => {}
+                Ok(false) => continue,
+                Err(_) => break,
+            }
+            if let Some(read::AttributeValue::LocationListsRef(off)) = e.attr_value(constants::DW_AT_frame_base) {
+                let mut kinds = Vec::new();
+                if let Ok(mut it) = uref.raw_locations(off) {
+                    while let Ok(Some(l)) = it.next() {
+                        let d = format!("{:?}", l);
+                        kinds.push(json!(d.split(|c: char| c == ' ' || c == '{').next().unwrap_or("")));
+                    }
+                }
+                out.insert(entry_name(uref, &e), Value::Array(kinds));
+            }
+        }
+    }
+    Value::Object(out)
+}
+
 fn replay(case: &Value) -> Value {
     let built = match build_input(case) {
         Ok(b) => b,
         Err(e) => return json!({"build": e}),
     };
-    let dwarf = load(&built.sections, built.endian);
+    let dwarf = load_with(&built.sections, built.endian, &built.addr);
     let input = match forest(&dwarf) {
         Ok(f) => f,
         Err(e) => return json!({"build": e}),
     };
     let flow = case["flow"].as_str().unwrap_or("convert");
+    let lockinds = raw_loc_kinds(&dwarf);
     let split = case["split"].as_bool() == Some(true);
     let enc = encoding_of(case);
     let unf = if split {
@@ -840,7 +1053,7 @@ fn replay(case: &Value) -> Value {
     }
     let unf_s = summarize(&unf, None, &input);
     let mut o = json!({"build":"ok", "unfiltered": unf_s, "runs": runs,
-        "input_order": input["order"], "input_dangling": input["dangling"]});
+        "input_order": input["order"], "input_dangling": input["dangling"], "lockinds": lockinds});
     if case["verbose"].as_bool() == Some(true) {
         o["input"] = input;
         o["unfiltered_forest"] = unf;
@@ -936,7 +1149,12 @@ fn random_case(rng: &mut Rng, n: usize, kinds: &[&str]) -> Value {
             }
             nattr[from] += 1;
         }
-        refs.push(json!({"from": from, "to": to, "kind": kind}));
+        if kind.starts_with("l_") {
+            let loc = *rng.pick(&["offset_pair", "start_end", "start_length", "startx_endx", "startx_length", "default_location"]);
+            refs.push(json!({"from": from, "to": to, "kind": kind, "loc": loc}));
+        } else {
+            refs.push(json!({"from": from, "to": to, "kind": kind}));
+        }
     }
     // base-type reordering would move DW_TAG_base_type children of the root to the
     // front and break the "target precedes source" requirement of typed operations
@@ -968,7 +1186,7 @@ fn record(out: &str, a: &Args) {
                 Ok(b) => b,
                 Err(e) => return json!({"build": e}),
             };
-            let dwarf = load(&built.sections, built.endian);
+            let dwarf = load_with(&built.sections, built.endian, &built.addr);
             let req: BTreeSet<String> = case["required"]
                 .as_array()
                 .unwrap()
